@@ -116,6 +116,14 @@ func poolReset(c *PoolCfg) {
 
 func poolStats() PoolStats { return pstats }
 
+// ResetPool empties the simulated pool (outside a run): used by the byte-level
+// worlds so that every case starts from the same pool state and replays alone.
+func ResetPool() {
+	if !on {
+		poolReset(nil)
+	}
+}
+
 func pat(pattern int, seed uint64, i int) uint {
 	b := WordBase
 	if b == 0 {
@@ -350,8 +358,11 @@ func Shadow(f func()) {
 	pools = map[*sync.Pool]*simPool{}
 	plist = nil
 	quiet++
+	sb := shadowBudget
+	shadowBudget = 20000000
 	defer func() {
 		quiet--
+		shadowBudget = sb
 		pcfg, pstats, pools, plist, getIdx, putIdx, held = sc, ss, sp, sl, sg, su, sh
 	}()
 	f()
